@@ -508,19 +508,19 @@ theorem sendActive_ev {s : State} (hd : UidsDistinct s) : EvS s (sendActive cfg 
 theorem ticks_ev {s : State} (hd : UidsDistinct s) : EvS s (ticks cfg s) := by
   unfold ticks
   dsimp only
-  have h1 : EvS s (if (cfg.timing && decide (s.now - s.tTiming > 900)) = true then
+  have h1 : EvS s (if (cfg.timing && decide (s.now - s.tTiming > cfg.pTiming)) = true then
       { sendTiming cfg s with tTiming := s.now } else s) := by
     split
     · exact (sendTiming_ev cfg hd).trans (evS_mods rfl rfl rfl rfl rfl)
     · exact EvS.refl s
-  generalize (if (cfg.timing && decide (s.now - s.tTiming > 900)) = true then
+  generalize (if (cfg.timing && decide (s.now - s.tTiming > cfg.pTiming)) = true then
       { sendTiming cfg s with tTiming := s.now } else s) = s1 at h1 ⊢
   have d1 := h1.distinct hd
-  have h2 : EvS s1 (if s1.now - s1.tTraffic > 1000 then sendTraffic cfg s1 else s1) := by
+  have h2 : EvS s1 (if s1.now - s1.tTraffic > cfg.pTraffic then sendTraffic cfg s1 else s1) := by
     split
     · exact sendTraffic_ev cfg d1
     · exact EvS.refl s1
-  generalize (if s1.now - s1.tTraffic > 1000 then sendTraffic cfg s1 else s1) = s2 at h2 ⊢
+  generalize (if s1.now - s1.tTraffic > cfg.pTraffic then sendTraffic cfg s1 else s1) = s2 at h2 ⊢
   refine (h1.trans h2).trans ?_
   split
   · exact sendActive_ev cfg (h2.distinct d1)
